@@ -1,6 +1,16 @@
 """C03 correspondence: Mul / Inv / Act / Act4 / matrix / identity / rotation / translation / scale /
 Adj / AdjT (forward) of all four groups vs Model/LieGroup.v, exact route (bit-for-bit on inputs
-for which float64 arithmetic is exact), plus exact and floating histories."""
+for which float64 arithmetic is exact), plus exact and floating histories.
+
+Implementation-level oracles (textbook formulas over exact Fractions, written from the property text):
+ * E "call protocol": every operation in every call form, batch shape (total sizes 0..8, 2-D/3-D shapes,
+   broadcasting of one operand against the other), memory layout (contiguous / transposed / strided /
+   stride-0 expanded / empty) and both dtypes, judged item by item; each judged call is repeated on the same
+   operand objects after the first result has been overwritten in place, and once more after the operands
+   have been overwritten in place; operands must not be mutated by the call;
+ * F "identity constructors": every constructor form (pp.identity_G, G_type.identity, identity_like,
+   identity_, algebra forms), sizes, dtypes: raw data, neutrality for @ (both sides) / Act / Act4 / matrix /
+   Inv; then an in-place history on the returned element, then the constructor again."""
 from ..common import *
 from ..lie import *
 
@@ -105,6 +115,7 @@ def run(ctx):
         ops, outs = [], []
         cum = 1.0
         L = rng.randint(hl // 2, hl)
+        inplace = (h // 4) % 2 == 1   # every other history updates the ONE tensor object in place
         for _ in range(L):
             o = rng.choice([0, 0, 1, 1, 2])
             y = unit_elt(rng, g)
@@ -114,11 +125,12 @@ def run(ctx):
                 if not (1 / 16 <= cum * s <= 16):
                     y[-1] = 1.0
             if o == 0:
-                X = LT(pp, torch, g, y) @ X
+                Xn = LT(pp, torch, g, y) @ X
             elif o == 1:
-                X = X @ LT(pp, torch, g, y)
+                Xn = X @ LT(pp, torch, g, y)
             else:
-                X = X.Inv()
+                Xn = X.Inv()
+            X = X.copy_(Xn) if inplace else Xn
             if g in ('RxSO3', 'Sim3'):
                 cum = float(X.tensor()[-1])
             ops.append((o, y))
@@ -174,15 +186,20 @@ def run(ctx):
                             break
                         j = rng.randrange(64)
             if o == 0:
-                X = pool[j] @ X
+                X = X.copy_(pool[j] @ X) if stepi % 5 == 0 else pool[j] @ X
             elif o == 1:
-                X = X @ pool[j]
+                X = X.copy_(X @ pool[j]) if stepi % 5 == 0 else X @ pool[j]
             elif o == 2:
                 X = X.Inv()
             else:
                 # increments of every size: O(1) as well as the tiny ones of an optimiser close to convergence
                 a = pp.LieTensor(alg[j].tensor() * rng.choice([1.0, 1.0, 1e-2, 3e-4, 3e-5, 1e-5, 1e-7, 1e-10, 0.0]), ltype=alg.ltype)
-                X = X.Retr(a) if stepi % 2 else X + a
+                if stepi % 3 == 0:
+                    X = X.Retr(a)
+                elif stepi % 3 == 1:
+                    X = X + a
+                else:
+                    X.add_(a.tensor())    # the in-place update of an optimiser step
             q = X.rotation().tensor()
             dev = abs(float(q.norm()) - 1.0)
             worst = max(worst, dev)
@@ -193,8 +210,29 @@ def run(ctx):
                 break
         ctx.case(('fhist', g, h), branch='float-history-' + g)
         ctx.notes.append('float history %s %s: %d ops, worst | |q|-1 | = %.3g (bound 16 n eps)' % (g, str(dtype).split('.')[-1], fl, worst))
+    # ---------------------------------------------------------------- E: call protocol (shapes, layouts, forms, reuse)
+    for c in protocol_cases(rng, ctx.scale(500, 4000)):
+        f = protocol_check(pp, torch, c)
+        ctx.case(('protocol', c['g'], c['op'], c['form'], tuple(c['xs']), tuple(c['ps'] or ()), c['layout'], c['dtype']),
+                 branch='protocol-%s-%s' % (c['op'], c['layout']))
+        if f:
+            ctx.violation('%s:%s:%s' % (f[0], c['g'], c['op']), f[1], dict(c, description=f[1][:600]))
+    # ---------------------------------------------------------------- F: identity constructors, state between calls
+    for c in identity_cases(rng, ctx.scale(1, 3)):
+        f = identity_check(pp, torch, c)
+        ctx.case(('identity-form', c['g'], c['form'], tuple(c['size']), c['dtype']), nontrivial=False,
+                 branch='identity-form-' + c['form'])
+        if f:
+            ctx.violation('identity-constructor:%s' % c['g'], f, dict(c, description=f[:600]))
     # ---------------------------------------------------------------- D: search
     if ctx.mismatches:
+        for m in ctx.mismatches:
+            # a failing input of the same group and operation found by E explains the model/implementation mismatch
+            gm, om = m['case'].get('g'), m['case'].get('op')
+            om = 'Act' if om == 'Act4' else om
+            if any(v['replay'].get('kind') == 'protocol' and v['replay'].get('g') == gm and
+                   (v['replay'].get('op') == om or om in ('Adj', 'AdjT', None)) for v in ctx.violations):
+                m['explained'] = True
         fams = sorted({m['case'].get('g') for m in ctx.mismatches if isinstance(m['case'], dict) and m['case'].get('g')})
         for g in fams or GROUPS:
             for f in laws(pp, torch, g, ctx.rng, budget=ctx.scale(1, 4)):
@@ -204,6 +242,349 @@ def run(ctx):
                 ctx.violation('law:%s:%s' % (g, f['law']), f['what'], f)
                 break
     ctx.exhaustive = False
+
+
+# ======================================================================= E: call protocol
+# Every operation of the property, called in every documented form on batches of every small shape
+# (total size 0..8: a size that coincides with a component count 3, 4, 5, 7, 8 must not matter), with one
+# operand broadcast against the other, in several memory layouts and both dtypes.  Operands are exactly
+# representable valid elements (Hurwitz unit quaternion, dyadic translation, power-of-two scale) and dyadic
+# points, so float32 and float64 do no rounding and each item must EQUAL the textbook value over Fractions.
+FORMS = {'Mul': ['X@Y', 'X*Y', 'pp.Mul', 'pp.mul'], 'Inv': ['X.Inv()', 'pp.Inv'],
+         'Act': ['X.Act(p)', 'pp.Act', 'X@p', 'X*p'], 'Act4': ['X.Act(p)', 'pp.Act', 'X@p', 'X*p'],
+         'matrix': ['X.matrix()', 'pp.matrix'], 'rotation': ['X.rotation()', 'pp.rotation'],
+         'translation': ['X.translation()', 'pp.translation'], 'scale': ['X.scale()', 'pp.scale']}
+BINARY = ('Mul', 'Act', 'Act4')
+LAYOUTS = ['contiguous', 'contiguous', 'transposed', 'strided', 'expanded']
+SHAPES = [(), (1,), (2,), (3,), (4,), (5,), (6,), (7,), (8,), (1, 3), (3, 1), (2, 3), (3, 2), (3, 3), (4, 3), (3, 4),
+          (2, 2), (1, 4), (4, 1), (2, 4), (1, 1, 3), (2, 1, 3), (3, 1, 1), (2, 3, 4), (3, 1, 3), (0,), (3, 0), (0, 3)]
+
+
+def _prod(sh):
+    n = 1
+    for v in sh:
+        n *= v
+    return n
+
+
+def _ident_row(g):
+    return join_elt(g, [0.0, 0.0, 0.0], [0.0, 0.0, 0.0, 1.0], 1.0)
+
+
+def _rows(rng, g, op, which, n, layout):
+    """n rows for operand `which` ('X' or 'P'); special elements (identity, pure translation, half turns - the
+    Hurwitz units contain them) are mixed with generic ones; the stride-0 layout repeats one row"""
+    def one():
+        if which == 'X' or op == 'Mul':
+            r = rng.random()
+            if r < 0.15:
+                return _ident_row(g)
+            x = unit_elt(rng, g)
+            if r < 0.25:
+                t, q, sc = split_elt(g, x)
+                x = join_elt(g, t, [0.0, 0.0, 0.0, 1.0], sc)
+            return x
+        if op == 'Act':
+            return [dy(rng, 5, 2.0) for _ in range(3)]
+        return [dy(rng, 5, 2.0) for _ in range(3)] + [rng.choice([0.0, 1.0, 1.0, dy(rng, 3, 2.0)])]
+    if layout == 'expanded' and n > 0:
+        r = one()
+        return [list(r) for _ in range(n)]
+    return [one() for _ in range(n)]
+
+
+def _operand_shapes(rng, out):
+    """two batch shapes whose broadcast is (usually) `out`: equal, one operand missing leading dimensions, or
+    dimensions of size 1 on one side"""
+    def reduce(sh):
+        sh = list(sh)
+        r = rng.random()
+        if r < 0.35:
+            return tuple(sh)
+        if r < 0.6:
+            return tuple(sh[rng.randint(0, len(sh)):])
+        return tuple(1 if (v != 0 and rng.random() < 0.6) else v for v in sh)
+    a, b = reduce(out), reduce(out)
+    if rng.random() < 0.5:
+        a = tuple(out)
+    else:
+        b = tuple(out)
+    return a, b
+
+
+def protocol_cases(rng, nrandom):
+    cases = []
+
+    def mk(g, op, xs, ps, layout, layout_p, dtype, form):
+        if _prod(xs) == 0 and layout == 'expanded':
+            layout = 'contiguous'
+        if ps is not None and _prod(ps) == 0 and layout_p == 'expanded':
+            layout_p = 'contiguous'
+        rounds = []
+        for _ in range(2):
+            rounds.append(dict(X=_rows(rng, g, op, 'X', _prod(xs), layout),
+                               P=_rows(rng, g, op, 'P', _prod(ps), layout_p) if ps is not None else None))
+        cases.append(dict(kind='protocol', g=g, op=op, form=form, xs=list(xs), ps=list(ps) if ps is not None else None,
+                          layout=layout, layout_p=layout_p, dtype=dtype, rounds=rounds))
+    # directed: every (group, op) on batches of every total size 0..8, and one element against k of the other operand
+    k = 0
+    for g in GROUPS:
+        for op in FORMS:
+            for n in range(0, 9):
+                k += 1
+                form = FORMS[op][k % len(FORMS[op])]
+                dtype = 'float64' if k % 3 else 'float32'
+                if op in BINARY:
+                    mk(g, op, (n,), (n,), 'contiguous', 'contiguous', dtype, form)
+                    if n >= 2:
+                        mk(g, op, (), (n,), 'contiguous', 'contiguous', dtype, FORMS[op][(k + 1) % len(FORMS[op])])
+                        mk(g, op, (n,), (), 'contiguous', 'contiguous', dtype, FORMS[op][(k + 2) % len(FORMS[op])])
+                        mk(g, op, (n, 1), (1, n), LAYOUTS[k % 5], LAYOUTS[(k + 2) % 5], dtype, form)
+                else:
+                    mk(g, op, (n,), None, 'contiguous', None, dtype, form)
+                    mk(g, op, (n,), None, LAYOUTS[2 + k % 3], None, dtype, form)
+    # random: shapes, broadcasting, layouts, forms, dtypes
+    ops = list(FORMS)
+    for i in range(nrandom):
+        g = GROUPS[i % 4]
+        op = ops[(i // 4) % len(ops)]
+        out = rng.choice(SHAPES)
+        if op in BINARY:
+            xs, ps = _operand_shapes(rng, out)
+        else:
+            xs, ps = out, None
+        mk(g, op, xs, ps, rng.choice(LAYOUTS), rng.choice(LAYOUTS), rng.choice(['float64', 'float64', 'float32']),
+           rng.choice(FORMS[op]))
+    return cases
+
+
+def _build(torch, rows, shape, d, dtype, layout):
+    """-> (view, owner): tensor of shape shape+(d,) holding `rows` in the requested memory layout; `owner` is the
+    tensor that owns the storage (snapshotted for the non-mutation clause)"""
+    shape = tuple(shape)
+    v = torch.tensor(rows, dtype=dtype).reshape(shape + (d,))
+    if layout == 'transposed' and len(shape) >= 2:
+        owner = v.transpose(0, 1).contiguous()
+        return owner.transpose(0, 1), owner
+    if layout == 'strided':
+        owner = torch.full(tuple(2 * n for n in shape[:1]) + shape[1:] + (2 * d,), 7.0, dtype=dtype)
+        view = owner[::2, ..., ::2] if shape else owner[..., ::2]
+        view.copy_(v)
+        return view, owner
+    if layout == 'expanded' and _prod(shape) > 0:
+        owner = v.reshape(-1, d)[:1].reshape((1,) * len(shape) + (d,)).clone()
+        return owner.expand(shape + (d,)), owner
+    return v, v
+
+
+def _overwrite(torch, view, owner, rows, shape, d, dtype, layout):
+    """in-place update of an operand (same tensor objects, new values)"""
+    v = torch.tensor(rows, dtype=dtype).reshape(tuple(shape) + (d,))
+    if layout == 'expanded' and _prod(shape) > 0:
+        owner.copy_(v.reshape(-1, d)[:1].reshape(owner.shape))
+    else:
+        view.copy_(v)
+
+
+def _invoke(pp, op, form, X, P):
+    if op == 'Mul':
+        return {'X@Y': lambda: X @ P, 'X*Y': lambda: X * P, 'pp.Mul': lambda: pp.Mul(X, P), 'pp.mul': lambda: pp.mul(X, P)}[form]()
+    if op == 'Inv':
+        return X.Inv() if form == 'X.Inv()' else pp.Inv(X)
+    if op in ('Act', 'Act4'):
+        return {'X.Act(p)': lambda: X.Act(P), 'pp.Act': lambda: pp.Act(X, P), 'X@p': lambda: X @ P, 'X*p': lambda: X * P}[form]()
+    return getattr(X, op)() if form.startswith('X.') else getattr(pp, op)(X)
+
+
+def ref_act4(g, x, p):
+    """[[sR, t],[0,1]] (p3, w)^T = (s R p3 + w t, w)"""
+    t, q, s = split_elt(g, x)
+    r = q_rot(q, p[:3])
+    return [s * r[i] + p[3] * t[i] for i in range(3)] + [p[3]]
+
+
+def _reference(g, op, x, p):
+    if op == 'Mul':
+        return ref_mul(g, x, p)
+    if op == 'Inv':
+        return ref_inv(g, x)
+    if op == 'Act':
+        return ref_act(g, x, p)
+    if op == 'Act4':
+        return ref_act4(g, x, p)
+    if op == 'matrix':
+        return ref_matrix(g, x)
+    t, q, s = split_elt(g, x)
+    return {'rotation': list(q), 'translation': list(t), 'scale': [s]}[op]
+
+
+def protocol_check(pp, torch, c):
+    """-> None or (key, description).  Round 1 is judged twice on the same operand objects (the first result is
+    overwritten in place in between), then the operands are overwritten in place and judged again."""
+    g, op, form = c['g'], c['op'], c['form']
+    dtype = getattr(torch, c['dtype'])
+    xs, ps = tuple(c['xs']), (tuple(c['ps']) if c['ps'] is not None else None)
+    dX = GDIM[g]
+    dP = None if ps is None else (dX if op == 'Mul' else 3 if op == 'Act' else 4)
+    odims = {'Mul': (dX,), 'Inv': (dX,), 'Act': (3,), 'Act4': (4,), 'matrix': (3, 3) if g == 'SO3' else (4, 4),
+             'rotation': (4,), 'translation': (3,), 'scale': (1,)}[op]
+    otype = {'Mul': g, 'Inv': g, 'rotation': 'SO3'}.get(op)
+    oshape = tuple(torch.broadcast_shapes(xs, ps)) if ps is not None else xs
+    where = '%s %s via %s, %s, X batch shape %s (%s)%s' % (g, op, form, c['dtype'], xs, c['layout'],
+                                                      '' if ps is None else ', second operand batch shape %s (%s)' % (ps, c['layout_p']))
+    ltype = getattr(pp, g + '_type')
+    Xv = Xo = Pv = Po = None
+    for ri, rd in enumerate(c['rounds']):
+        if ri == 0:
+            Xv, Xo = _build(torch, rd['X'], xs, dX, dtype, c['layout'])
+            X = pp.LieTensor(Xv, ltype=ltype)
+            if ps is not None:
+                Pv, Po = _build(torch, rd['P'], ps, dP, dtype, c['layout_p'])
+                P = pp.LieTensor(Pv, ltype=ltype) if op == 'Mul' else Pv
+            else:
+                P = None
+        else:
+            _overwrite(torch, Xv, Xo, rd['X'], xs, dX, dtype, c['layout'])
+            if ps is not None:
+                _overwrite(torch, Pv, Po, rd['P'], ps, dP, dtype, c['layout_p'])
+        # expected values, item by item (textbook formulas over Fractions)
+        n = _prod(oshape)
+        xe = torch.tensor(rd['X'], dtype=torch.float64).reshape(xs + (dX,)).expand(oshape + (dX,)).reshape(-1, dX).tolist()
+        pe = (torch.tensor(rd['P'], dtype=torch.float64).reshape(ps + (dP,)).expand(oshape + (dP,)).reshape(-1, dP).tolist()
+              if ps is not None else [None] * n)
+        snapX = Xo.clone()
+        snapP = Po.clone() if Po is not None else None
+        for attempt in range(2 if ri == 0 else 1):
+            tag = ['first call', 'second call on the same operand objects (the first result was overwritten in place)',
+                   'call after the operands were overwritten in place'][attempt if ri == 0 else 2]
+            try:
+                out = _invoke(pp, op, form, X, P)
+            except Exception as e:
+                return ('raises', '%s: %s raises %s' % (where, tag, repr(e)[:200]))
+            is_lt = isinstance(out, pp.LieTensor)
+            if (otype is not None) != is_lt or (is_lt and out.ltype != getattr(pp, otype + '_type')):
+                return ('result-type', '%s: %s returns %s, expected %s' % (where, tag, type(out).__name__ + (':' + str(out.ltype) if is_lt else ''), otype or 'Tensor'))
+            raw = out.tensor() if is_lt else out
+            if tuple(raw.shape) != oshape + odims or raw.dtype != dtype:
+                return ('result-shape', '%s: %s returns shape %s dtype %s, expected %s %s' % (where, tag, tuple(raw.shape), raw.dtype, oshape + odims, dtype))
+            if not (torch.equal(Xo, snapX) and (Po is None or torch.equal(Po, snapP))):
+                return ('mutation', '%s: %s changed an operand in place' % (where, tag))
+            if n:
+                m = _prod(odims)
+                got = raw.detach().to(torch.float64).reshape(n, m).tolist()
+                for i in range(n):
+                    exp = _reference(g, op, [Fraction(v) for v in xe[i]], [Fraction(v) for v in pe[i]] if pe[i] is not None else None)
+                    if [Fraction(v) for v in got[i]] != [Fraction(v) for v in exp]:
+                        return ('protocol', '%s: %s, item %d of the result: X=%s%s gives %s, the group law (textbook formula) gives %s'
+                                % (where, tag, i, xe[i], '' if pe[i] is None else ' second operand=%s' % pe[i], got[i], [float(v) for v in exp]))
+            if ri == 0 and attempt == 0 and op in ('Mul', 'Inv', 'Act', 'Act4', 'matrix') and n:
+                # the caller owns the result: updating it in place must not affect the operands or later results
+                try:
+                    raw.add_(1.0)
+                except RuntimeError:
+                    pass
+                if not (torch.equal(Xo, snapX) and (Po is None or torch.equal(Po, snapP))):
+                    return ('aliasing', '%s: updating the result in place changed an operand (result shares memory with its input)' % where)
+    return None
+
+
+# ======================================================================= F: identity constructors
+ALG = {'SO3': 'so3', 'SE3': 'se3', 'RxSO3': 'rxso3', 'Sim3': 'sim3'}
+IDFORMS = ['pp.identity_G', 'G_type.identity', 'pp.identity_like', 'X.identity_()', 'pp.identity_g']
+HISTS = ['add_', 'copy_product', 'setitem', 'scale_data']
+
+
+def identity_cases(rng, reps):
+    cases = []
+    k = 0
+    for rep in range(reps):
+        for g in GROUPS:
+            for form in IDFORMS:
+                if form == 'X.identity_()' and g != 'SO3':
+                    continue   # only SO3 implements the in-place form
+                for size in [(), (1,), (2,), (3,), (2, 3)]:
+                    for dtype in [None, 'float64', 'float32']:
+                        k += 1
+                        if rep == 0 and (k % 2) and size not in ((), (2,)):
+                            continue
+                        n = _prod(size)
+                        cases.append(dict(kind='identity', g=g, form=form, size=list(size), dtype=dtype,
+                                          hist=[HISTS[(k + j) % 4] for j in range(1 + k % 3)],
+                                          Y=[unit_elt(rng, g) for _ in range(n)], T=[unit_elt(rng, g) for _ in range(n)],
+                                          p=[[dy(rng, 5, 2.0) for _ in range(3)] for _ in range(n)],
+                                          w=[rng.choice([0.0, 1.0, dy(rng, 3, 2.0)]) for _ in range(n)],
+                                          a=[[rng.uniform(-0.5, 0.5) for _ in range(ADIM[g])] for _ in range(n)]))
+    return cases
+
+
+def identity_check(pp, torch, c):
+    """-> None or a description.  constructor; checks; in-place history on the returned element; constructor again; checks"""
+    g, form, size = c['g'], c['form'], tuple(c['size'])
+    dtype = getattr(torch, c['dtype']) if c['dtype'] else None
+    eff = dtype or torch.get_default_dtype()
+    kw = dict(dtype=dtype) if dtype is not None else {}
+    d = GDIM[g]
+    ltype = getattr(pp, g + '_type')
+    Y = pp.LieTensor(torch.tensor(c['Y'], dtype=eff).reshape(size + (d,)), ltype=ltype)
+    p3 = torch.tensor(c['p'], dtype=eff).reshape(size + (3,))
+    p4 = torch.cat([p3, torch.tensor(c['w'], dtype=eff).reshape(size + (1,))], -1)
+    a = torch.tensor(c['a'], dtype=eff).reshape(size + (ADIM[g],))
+    # identity_like: lsize and ltype of the template, dtype as documented (the keyword, else the global default);
+    # the template deliberately has the other dtype
+    T = pp.LieTensor(torch.tensor(c['T'], dtype=torch.float64 if form == 'pp.identity_like' and eff != torch.float64 else
+                                  torch.float32 if form == 'pp.identity_like' else eff).reshape(size + (d,)), ltype=ltype)
+
+    def construct():
+        if form == 'pp.identity_G':
+            return getattr(pp, 'identity_' + g)(*size, **kw)
+        if form == 'G_type.identity':
+            return ltype.identity(*size, **kw)
+        if form == 'pp.identity_like':
+            return pp.identity_like(T, **kw)
+        if form == 'X.identity_()':
+            return T.identity_()
+        return getattr(pp, 'identity_' + ALG[g])(*size, **kw)
+
+    I = torch.tensor(_ident_row(g), dtype=eff).expand(size + (d,))
+    eye = torch.eye(3 if g == 'SO3' else 4, dtype=eff)
+    where = '%s%s%s' % (form.replace('_G', '_' + g).replace('G_type', g + '_type').replace('_g', '_' + ALG[g]),
+                        tuple(size), '' if dtype is None else ' dtype=%s' % c['dtype'])
+    for when in ('first call', 'call after an in-place history (%s) on the previously returned element' % ', '.join(c['hist'])):
+        try:
+            E0 = construct()
+            E = E0
+            if form == 'pp.identity_g':
+                if not isinstance(E0, pp.LieTensor) or E0.ltype != getattr(pp, ALG[g] + '_type') or tuple(E0.shape) != size + (ADIM[g],) \
+                        or E0.dtype != eff or bool((E0.tensor() != 0).any()):
+                    return '%s, %s: not the zero element of the algebra: %s' % (where, when, E0.tensor().tolist())
+                E = E0.Exp()
+            if not isinstance(E, pp.LieTensor) or E.ltype != ltype or tuple(E.shape) != size + (d,) or E.dtype != eff:
+                return '%s, %s: returns %s shape %s dtype %s' % (where, when, type(E).__name__, tuple(E.shape), E.dtype)
+            checks = [('raw data is not the identity element %s' % _ident_row(g), E.tensor(), I),
+                      ('E @ Y != Y for Y=%s' % c['Y'], (E @ Y).tensor(), Y.tensor()),
+                      ('Y @ E != Y for Y=%s' % c['Y'], (Y @ E).tensor(), Y.tensor()),
+                      ('E.Act(p) != p for p=%s' % c['p'], E.Act(p3), p3),
+                      ('E.Act(p) != p for homogeneous p=%s' % p4.tolist(), E.Act(p4), p4),
+                      ('E.matrix() is not the unit matrix', E.matrix(), eye.expand(size + eye.shape)),
+                      ('E.Inv() != E', E.Inv().tensor(), I)]
+            for what, got, exp in checks:
+                if tuple(got.shape) != tuple(exp.shape) or not torch.equal(got, exp):
+                    return '%s, %s: %s (got %s)' % (where, when, what, got.tolist())
+            # in-place history on the element that was returned (it belongs to the caller)
+            for hname in c['hist']:
+                if form == 'pp.identity_g':
+                    E0.tensor().add_(a * (1.0 if hname == 'add_' else 2.0))
+                elif hname == 'add_':
+                    E0.add_(a)
+                elif hname == 'copy_product':
+                    E0.copy_(E0 @ Y)
+                elif hname == 'setitem':
+                    E0.tensor()[..., 0] = 5.0
+                else:
+                    E0.tensor().mul_(-3.0)
+        except Exception as e:
+            return '%s, %s: raises %s' % (where, when, repr(e)[:200])
+    return None
 
 
 def laws(pp, torch, g, rng, budget=1):
@@ -308,6 +689,11 @@ def replay(ctx, c):
             if f['law'] == c['law']:
                 return f['what']
         return None
+    if c.get('kind') == 'protocol':
+        f = protocol_check(pp, torch, c)
+        return f[1] if f else None
+    if c.get('kind') == 'identity':
+        return identity_check(pp, torch, c)
     if c.get('kind') == 'float-history':
         import random
         ctx2 = Ctx('C03', 'quick', c['seed'])
